@@ -446,6 +446,10 @@ class Coordinator(object):
 
         def rejoin_d_errback(result):
             log.error("%s error during join_and_sync: %s", self, result)
+            if result.check(KafkaError):
+                # A Kafka error that escaped the join (a failed metadata
+                # load, say) must not leave us idle: rejoin after a delay.
+                return self.rejoin_after_error(result, label="join_and_sync")
 
         self._rejoin_d = d = self._join_and_sync()
         d.addBoth(cleanup_rejoin_d).addErrback(rejoin_d_errback)
